@@ -292,6 +292,23 @@ def _chk_case(o, mode, key, case, acc, seed):
                 acc.violation(f'{key}:not-repeatable-after-result-edit', case,
                               f'after the caller edited the result of {o.name}({v[0]}) in place, the identical call on fresh arguments returns something else')
             return
+        if mode == 'default':
+            # an optional argument given explicitly with its documented default (mc/api_defaults.json, taken from the signatures of
+            # the pinned tree) is the call without it
+            pname, val = case['param'], case['value']
+            val = tuple(val) if isinstance(val, list) else val
+            base = o.variants()[0]
+            cold, _ = _cold(o, seed, base)
+            engine.reset_library_state()
+            np.random.seed(4242)
+            args = o.args(seed, base)
+            if pname in args:
+                return 'n/a'
+            args[pname] = val
+            r = _result(o, _call(o, args), args)
+            if dig(r) != cold:
+                acc.violation(f'{key}:default:{pname}', case, f'{o.name} with {pname}={val!r} given explicitly (its documented default) differs from the call without it')
+            return
         if mode == 'refill':
             p, k = case['param'], case['k']
             vb = variant_by_name(o, f'{p}#{k}')
@@ -421,6 +438,9 @@ def t_callhist(arg, acc):
     acc.cls('history:refills', nref)
     for i in range(len(o.bad)):
         chk_case(dict(case0, mode='refused', i=i), acc, seed)
+    for pname, val in sorted((api_defaults().get(name, {}).get('defaults') or {}).items()):
+        if chk_case(dict(case0, mode='default', param=pname, value=val), acc, seed) != 'n/a':
+            acc.cls('history:defaults')
     acc.cls('history:ops')
     acc.states += len(V)
     acc.case(dict(case0, mode='all'), outcome=f'hist-{name}')
@@ -428,6 +448,18 @@ def t_callhist(arg, acc):
 
 def tasks_for(pid, seed):
     return [('t_callhist', {'seed': seed, 'op': name}) for name, o in sorted(catalogue().items()) if pid in o.props]
+
+
+_DEF = None
+
+
+def api_defaults():
+    global _DEF
+    if _DEF is None:
+        import json
+        with open(os.path.join(os.path.dirname(os.path.abspath(__file__)), 'api_defaults.json')) as f:
+            _DEF = json.load(f)
+    return _DEF
 
 
 _CAT = None
